@@ -580,7 +580,7 @@ class Enumerator(object):
                                     q.effects.append(es)
                         nxt.append(q)
                 elif sk in ('Semi', 'ExprStmt'):
-                    if H.is_log(s['e']):
+                    if H.is_log(s['e']) or H.log_stmt(s['e'], self.ev.fns, getattr(self.ev, 'new_helper', None) or self.ev.inline_filter):
                         nxt.append(p)
                         continue
                     for q in self.run(s['e'], p):
